@@ -95,6 +95,11 @@ func VerifyFunc(P *Program, C *Contracts, fn *ssa.Function, con *Contract) (res 
 		if err != nil {
 			x.unsupported("%s: ghost %s: %v", con.Pos, g.Name, err)
 		}
+		if id, ok := g.Init.(EIdent); ok && id.Name == "any" {
+			// an arbitrary but fixed value: what is proved for it holds for every value of the type
+			st.ghost[g.Name] = x.freshVal(st, t, "ghost."+g.Name)
+			continue
+		}
 		v := x.trVal(env0, g.Init, con.Pos)
 		v = env0.coerce(v, t)
 		v.T = t
